@@ -4,7 +4,7 @@ HERE="$(cd "$(dirname "$0")" && pwd)"
 OUT="$1"; shift
 mkdir -p "$OUT"
 for m in "$@"; do
-  name=$(echo "$m" | sed 's#/tmp/seed-out/##; s#/#_#g')
+  name="$(basename $(dirname "$m"))_$(basename "$m")"
   "$HERE/seedtest.sh" "$m" > "$OUT/$name.txt" 2>&1
 done
 echo batch done
